@@ -31,17 +31,12 @@ def Fields.dropSelectors : Fields → Fields
   | .cons f (.selected _) t rest => .cons f .plain t rest.dropSelectors
   | .cons f k t rest => .cons f k t rest.dropSelectors
 
-inductive EncRes where
-  | ok (name : String) (fs : Fields)
-  | crash (cls : String)
-
-/-- `TPMS_PARAMS.encrypted()` -/
-def encVariant (encParam : Ty) : Ty → EncRes
-  | .struct _ _ .nil => .crash "IndexError"
+/-- `TPMS_PARAMS.encrypted()`: the synthesized layout (name, fields), or `none` when the area has no
+leading `TPM2B` parameter (the class itself is returned) -/
+def encVariant (encParam : Ty) : Ty → Option (String × Fields)
   | .struct name _ (.cons f _ t rest) =>
-    if t.name.startsWith "TPM2B" then .ok name (.cons f .plain encParam rest.dropSelectors)
-    else .crash "AssertionError"
-  | _ => .crash "AttributeError"
+    if t.name.startsWith "TPM2B" then some (name, .cons f .plain encParam rest.dropSelectors) else none
+  | _ => none
 
 def Ty.isParams : Ty → Bool
   | .struct _ p _ => p
@@ -51,8 +46,8 @@ def Ty.isParams : Ty → Bool
 def decodeArea (abort : Bool) (tb : MsgTables) (enc : Bool) (t : Ty) (path : Path) (s : St) : R Val :=
   if enc && t.isParams then
     match encVariant tb.encParam t with
-    | .crash cls => crash cls "TPMS_PARAMS.encrypted()" s
-    | .ok name fs =>
+    | none => decode abort t path none s
+    | some (name, fs) =>
       (decodeFields abort fs path [] (emitM ⟨path, .named name true, none, "", 0⟩ s)).bind fun vals s =>
         .ok (.obj name true vals, s)
   else decode abort t path none s
